@@ -620,4 +620,96 @@ def expectedH (pf : PatchFn) (garbled : Bool) (ds : List Doc) (c : Cluster) (ws 
 
 end Spec
 
+/-! ## the hook run: a failed hook, and the patch files of overlapping runs
+
+`handleRunHook` gets the bytes of the patch file from `Hook.Run`. When the hook process fails the
+error branch (operator.go:660-670) applies — of a patch file that is valid AS A WHOLE — only the
+`/status` patches marked `ignoreHookError`; `Hook.Run` as it is written fills in
+`KubernetesPatchBytes` only after the process has succeeded, so on the pinned tree that branch sees
+no bytes at all. Both are modelled (`rd`: does `Run` hand over what a failed process wrote). -/
+
+/-- `GetPatchStatusOperationsOnHookError`: a `*patchOperation` with `subresource == "/status"` and
+`ignoreHookError`; `ss` is the interned string "/status". -/
+def Op.onHookError (ss : Sub) : Op → Bool
+  | .patch _ _ _ sub _ ihe _ => sub == ss && ihe
+  | _ => false
+
+def onHookError (ss : Sub) (ops : List Op) : List Op := ops.filter (Op.onHookError ss)
+
+/-- `Hook.Run`: what it puts into `result.KubernetesPatchBytes` (`none`: left empty). -/
+def runBytes (rd hookOk : Bool) (s : Stream) : Option Stream :=
+  if hookOk || rd then some s else none
+
+/-- `handleRunHook`: both branches that touch the patch file. -/
+def handleRun (pf : PatchFn) (normalise : Bool) (f : Form) (ss : Sub) (hookOk : Bool)
+    (bytes : Option Stream) (st : St) (ws : Writers) : HandleResult :=
+  if hookOk then
+    match bytes with
+    | none => ⟨st, false, false, 0, false⟩                     -- len(KubernetesPatchBytes) == 0
+    | some s => handleH pf normalise f s st ws
+  else
+    match bytes with
+    | none => ⟨st, true, false, 0, false⟩                      -- return err
+    | some s =>
+      match parse normalise f s with
+      | (_, true) => ⟨st, true, false, 0, false⟩               -- "couldn't patch status": nothing applied
+      | (ops, false) =>
+        let r := executeH pf (onHookError ss ops) st ws 0
+        ⟨r.st, true, true, r.nerr, r.panicked⟩                 -- the hook's error is returned anyway
+
+namespace Spec
+
+/-- The property for ONE EXECUTION of a hook, on what was observed `(failed, view cluster calls)`
+(`view`: what the observer sees of the cluster and the API-call log, e.g. their canonical printing):
+a successful hook: `expectedH`; a failed hook: the execution fails and — if any document is invalid —
+nothing is applied; if all are valid either nothing is applied or exactly the documented
+on-hook-error operations are, once each, in document order. -/
+def acceptRun {α : Type} [DecidableEq α] (view : Cluster → List Action → α)
+    (pf : PatchFn) (ss : Sub) (garbled : Bool) (ds : List Doc) (c : Cluster) (ws : Writers)
+    (hookOk : Bool) (obs : Bool × α) : Bool :=
+  if hookOk then
+    decide (obs = ((expectedH pf garbled ds c ws).1,
+      view (expectedH pf garbled ds c ws).2.2.1 (expectedH pf garbled ds c ws).2.2.2))
+  else
+    obs.1 &&
+    (if garbled || ds.any (fun d => !d.valid) then decide (obs.2 = view c [])
+     else decide (obs.2 = view c []) ||
+       decide (obs.2 = view (runH pf (onHookError ss (ds.map (·.op))) ⟨c, ws, [], 0⟩).cluster
+                (runH pf (onHookError ss (ds.map (·.op))) ⟨c, ws, [], 0⟩).calls))
+
+end Spec
+
+/-! ### the patch files of overlapping runs
+
+`Hook.Run` creates the file named `$KUBERNETES_PATCH_PATH` (`prepareObjectPatchFile`: a name with a
+fresh uuid, written empty), the hook process writes its documents into it, `Run` reads it back and
+removes it. A hook with bindings in several queues is run by several queue workers at the same
+time: the steps of the runs interleave arbitrarily. `path r` is the file name of run `r`. -/
+
+abbrev Path := Nat
+abbrev Content := List Nat            -- the documents written, interned
+
+inductive FStep
+  | prepare                           -- os.WriteFile(path, []byte{}, 0644)
+  | write (ds : Content)              -- the hook process: `> $KUBERNETES_PATCH_PATH`
+  | read                              -- os.ReadFile(path) -> KubernetesPatchBytes (none: an error)
+  | remove                            -- the deferred os.Remove(path)
+  deriving DecidableEq, Repr
+
+structure FState where
+  files : List (Path × Content) := []
+  got : List (Nat × Option Content) := []     -- run ↦ what its ReadFile returned
+  deriving DecidableEq, Repr
+
+def fstep (path : Nat → Path) (s : FState) (r : Nat) : FStep → FState
+  | .prepare => { s with files := aset s.files (path r) [] }
+  | .write ds => { s with files := aset s.files (path r) ds }
+  | .read => { s with got := aset s.got r (aget s.files (path r)) }
+  | .remove => { s with files := aerase s.files (path r) }
+
+/-- An interleaving of the steps of any number of runs. -/
+def frun (path : Nat → Path) : List (Nat × FStep) → FState → FState
+  | [], s => s
+  | (r, st) :: rest, s => frun path rest (fstep path s r st)
+
 end ShellOp.Patch
